@@ -70,6 +70,7 @@ func runC08(c *Checker) {
 	// "keeps decrypting to exactly what was written" needs the record to reach the peer byte-exact
 	// whatever the writer does (partial writes, retries): the framing/flush obligations of C16
 	importLayers(c, "C16")
+	ruleNARROW(c)
 	w := c.w
 	enc := mboxFunc(c, "(*mailbox.cipherState).Encrypt")
 	dec := mboxFunc(c, "(*mailbox.cipherState).Decrypt")
@@ -1293,4 +1294,60 @@ func ruleEphemeralFresh(c *Checker) {
 	}
 	c.decide(okDef && nSt == 1, "KEYSEP", "ephemeral|the default generator is btcec.NewPrivateKey", token.NoPos, "assigned once, at its declaration",
 		fmt.Sprintf("the package's ephemeral key generator is not (only) btcec.NewPrivateKey (%d assignments)", nSt))
+}
+
+// ruleNARROW: record and frame lengths travel as uint16/uint8 on the wire, but every computation
+// with them is done in int/uint32 - an addition or multiplication carried out in the narrow type
+// wraps for the largest legal records (`Uint16(hdr) + macSize` is 0..15 for payloads of
+// 65520..65535 bytes). So in package mailbox no +, -, *, << is evaluated in an integer type
+// narrower than 32 bits unless the operand ranges prove that it cannot wrap.
+func ruleNARROW(c *Checker) {
+	w := c.w
+	rg := newRanger(w)
+	n := 0
+	for _, fn := range w.Funcs {
+		if w.pkgShort(fn) != targetMbox {
+			continue
+		}
+		n++
+		allInstrs(fn, func(in ssa.Instruction) {
+			bo, ok := in.(*ssa.BinOp)
+			if !ok {
+				return
+			}
+			switch bo.Op {
+			case token.ADD, token.SUB, token.MUL, token.SHL:
+			default:
+				return
+			}
+			bt, ok := bo.Type().Underlying().(*types.Basic)
+			if !ok || bt.Info()&types.IsInteger == 0 {
+				return
+			}
+			switch bt.Kind() {
+			case types.Uint8, types.Uint16, types.Int8, types.Int16:
+			default:
+				return
+			}
+			full := fullRange(bo.Type())
+			x, y := rg.At(bo.X, bo.Block()), rg.At(bo.Y, bo.Block())
+			okk := false
+			switch bo.Op {
+			case token.ADD:
+				if hi, fits := addSat(x.hi, y.hi); fits && hi <= full.hi && !x.empty && !y.empty {
+					okk = true
+				}
+			case token.SUB:
+				okk = !x.empty && !y.empty && x.lo-y.hi >= full.lo
+			case token.MUL:
+				if hi, fits := mulSat(x.hi, y.hi); fits && hi <= full.hi && x.lo >= 0 && y.lo >= 0 {
+					okk = true
+				}
+			}
+			key := fnName(fn) + "|" + w.canonFB(bo)
+			c.decide(okk, "NARROW", key, instrPos(bo), "narrow arithmetic proved in range",
+				fmt.Sprintf("arithmetic in %s can wrap (operand ranges %s, %s): a length near the maximum comes out small and the record is cut short", typeStr(bo.Type()), x, y))
+		})
+	}
+	c.decide(n > 50, "NARROW", "mailbox|functions scanned", token.NoPos, fmt.Sprintf("%d functions of package mailbox scanned for arithmetic in 8/16-bit integer types", n), "package mailbox not scanned")
 }
